@@ -859,6 +859,12 @@ impl<'a> Gui<'a> {
         }
         let (best, ponder) = win.best.clone().unwrap();
         let legal = root.legal_moves();
+        // in the exactness checks the exactness oracle speaks first (a search that ran on another
+        // position than the one set shows there as a wrong score / a move that does not attain it)
+        let exact_first = matches!(self.focus.as_str(), "C08" | "C11");
+        if exact_first {
+            self.exactness_clause(root, rg, c, win, &best, &ctx, &legal)?;
+        }
         if legal.is_empty() {
             if best != "0000" {
                 return Err(viol("C07", "move_in_terminal_position", format!("{}: bestmove {} but there is no legal move", ctx, best)));
@@ -985,6 +991,15 @@ impl<'a> Gui<'a> {
             }
         }
         // ---- C08 exactness for shallow fixed-depth searches
+        if !exact_first {
+            self.exactness_clause(root, rg, c, win, &best, &ctx, &legal)?;
+        }
+        Ok(())
+    }
+
+    /// C08 exactness for shallow fixed-depth searches (also used by C09 follow-ups and C11).
+    #[allow(clippy::too_many_arguments)]
+    fn exactness_clause(&mut self, root: &Pos, rg: &RefGo, c: &Cycle, win: &SearchWindow, best: &str, ctx: &str, legal: &[Mv]) -> Result<(), V> {
         let exact_focus = matches!(self.focus.as_str(), "C08" | "C09" | "C11");
         if exact_focus && !legal.is_empty() {
             if let Some(d) = c.go.depth {
